@@ -417,6 +417,8 @@ pub struct Scripted {
     pub decide: Box<Decide>,
     pub udp_plan: fn() -> MuxPlan,
     pub icmp_plan: fn() -> MuxPlan,
+    /// outcome of the forwarder's authentication step for datagram multiplexers
+    pub auth_plan: fn() -> Result<(), ConnErrView>,
     pub connect_dropped: Arc<AtomicBool>,
 }
 
@@ -428,6 +430,7 @@ impl Scripted {
             decide: Box::new(decide),
             udp_plan: || MuxPlan::Dummy,
             icmp_plan: || MuxPlan::Dummy,
+            auth_plan: || Ok(()),
             connect_dropped: Default::default(),
         })
     }
@@ -490,7 +493,7 @@ impl Connector for Scripted {
 
     async fn datagram_auth(&self, meta: UdpMuxMetaView) -> Result<(), ConnErrView> {
         self.events.lock().unwrap().push(Event::DatagramAuth(meta));
-        Ok(())
+        (self.auth_plan)()
     }
 
     fn udp_mux(&self, meta: UdpMuxMetaView) -> MuxPlan {
